@@ -194,7 +194,8 @@ pub fn run_steps(a: &Args) {
     let mut one = |out: &mut Out, st: &mut Stats, b: &[u8], at: usize| {
         simple_dns::verif::arm_trace();
         let r = guarded(|| parse_name(b, at).map(|_| ()));
-        let steps = simple_dns::verif::take_trace();
+        // (loop-arm records only: 1 label, 2 pointer, 3 terminator; the call-start record 4 belongs to other rules)
+        let steps: Vec<_> = simple_dns::verif::take_trace().into_iter().filter(|s| (1..=3).contains(&s[0])).collect();
         let shard = session;
         session += 1;
         out.emit_to(shard, json!({"ev": "NameBegin", "b": bytes_json(b), "at": at}));
